@@ -914,3 +914,27 @@ Qed.
 
 End OneConnectionFinal.
 
+
+(* ---------- a decision procedure for the depth hypothesis (used by the non-vacuity examples) ---------- *)
+
+Fixpoint udepth_leb (n : nat) (ps : list pos) (k : nat) : bool :=
+  (chain (getp ps k) =? 0) ||
+  match parent_index ps k with
+  | None => true
+  | Some j => match n with O => false | S n' => udepth_leb n' ps j end
+  end.
+
+Lemma udepth_leb_sound : forall n ps k, udepth_leb n ps k = true -> udepth_le n ps k.
+Proof.
+  induction n; intros ps k H; cbn in *; apply orb_true_iff in H; destruct H as [H|H];
+    try (left; apply Z.eqb_eq; exact H); right; destruct (parent_index ps k); try exact I; try discriminate.
+  apply IHn. exact H.
+Qed.
+
+Lemma all_depth_ok : forall n ps,
+  forallb (udepth_leb n ps) (seq 0 (length ps)) = true -> forall k, udepth_le n ps k.
+Proof.
+  intros n ps H k. destruct (Nat.lt_ge_cases k (length ps)) as [Hk|Hk].
+  - apply udepth_leb_sound. rewrite forallb_forall in H. apply H. apply in_seq. lia.
+  - destruct n; left; unfold getp; rewrite nth_overflow by lia; reflexivity.
+Qed.
